@@ -49,6 +49,7 @@ structure Hello where
   compression : Bytes
   exts : List Ext
   d : Derived
+  noExt : Bool := false   -- the message has no extensions field at all (legal before TLS 1.3)
 deriving DecidableEq, Repr
 
 /-! ### extension list codec -/
@@ -195,6 +196,12 @@ def parseClientHello (buf : Bytes) : Except Err Hello :=
               match readLP8 s4 with
               | none => .error .decode
               | some (comp, s5) =>
+                if s5 = [] then
+                  -- RFC 8446 4.1.2: a hello of an earlier version may end here
+                  match parseExtensions [] with
+                  | .error x => .error x
+                  | .ok d => .ok ⟨ver, rnd, sid, cs, comp, [], d, true⟩
+                else
                 match readLP16 s5 with
                 | none => .error .decode
                 | some (extb, s6) =>
@@ -205,7 +212,7 @@ def parseClientHello (buf : Bytes) : Except Err Hello :=
                     | .error x => .error x
                     | .ok d =>
                       if (d.ech.map (·.typ)) = some 1 ∧ ¬ (allZero s6 ∧ allZero zeros) then .error .illegal
-                      else .ok ⟨ver, rnd, sid, cs, comp, exts, d⟩
+                      else .ok ⟨ver, rnd, sid, cs, comp, exts, d, false⟩
 
 /-! ### marshal / marshalAAD -/
 
@@ -237,7 +244,8 @@ def marshalBody (aad : Bool) (h : Hello) : Except Err Bytes :=
   | .error x => .error x
   | .ok eb =>
     match lp8 h.sessionId, lp16 h.cipherSuites, lp8 h.compression, lp16 eb with
-    | some sid, some cs, some comp, some ex => .ok (u16 h.legacyVersion ++ h.random ++ sid ++ cs ++ comp ++ ex)
+    | some sid, some cs, some comp, some ex =>
+      .ok (u16 h.legacyVersion ++ h.random ++ sid ++ cs ++ comp ++ (if h.noExt then [] else ex))
     | _, _, _, _ => .error .other
 
 /-- `(*clientHello).marshal(aad)`: the whole record -/
